@@ -1528,7 +1528,11 @@ class BaseSpaceImpl(*_base_space_impl_base):
             else:
                 return None
         else:
-            if child in self.namespace:
+            # A model-level reference of the same name hides
+            # a child space in the namespace
+            if child in self.named_spaces:
+                return self.named_spaces[child]
+            elif child in self.namespace:
                 return self._namespace[child]
             elif child in self.named_itemspaces:
                 return self._named_itemspaces[child]
